@@ -15,7 +15,7 @@ RULE = ('cases = generated raw-API storage programs (store/delete/undo/restore/a
         'whole query battery (loadBefore at every tid boundary x every oid, load, loadSerial, getTid, history, '
         'iterator and ranges, undoLog, record_iternext, lastTransaction, len) is compared with the model; '
         'evaluations = individual queries compared; non-trivial = program with >= 3 committed transactions '
-        'and at least one undo, deletion, restore, reopen or clock anomaly; distinct by program hash')
+        'and at least one undo, deletion, restore, reopen or clock anomaly; distinct by program hash; later additions: deleteObject and store with the serial of an older revision (also onto un-created objects), checkCurrentSerialInTransaction with current and old serials, undoLog with a filter, reads through every pooled file handle while a transaction is voted')
 ASSUMPTIONS = ['tids are recorded from the storage, not predicted; only order and monotonicity are required',
                'for an un-created object both None and POSKeyError are accepted from loadBefore',
                'history() compared on (tid, user, description)']
